@@ -317,6 +317,15 @@ Definition same_set (a b : list Z) : bool := subsetZ a b && subsetZ b a.
 Fixpoint nodupb (l : list Z) : bool :=
   match l with [] => true | x :: t => negb (existsb (Z.eqb x) t) && nodupb t end.
 
+(* ---------------- hypothesis predicates (boolean, so that examples discharge them by computation) ---------------- *)
+Definition subs_okb (m : mask) (subs : list nat) : bool :=
+  Nat.eqb (length subs) (count_unmasked m) && forallb (Nat.leb 1) subs.
+(* the index arrays list, for each of the total_sub sub-pixels, source pixels in [0, P) *)
+Definition mapper_okb (m : mask) (subs : list nat) (P : nat) (mp : list (list Z)) (sz : list nat) : bool :=
+  subs_okb m subs
+  && forallb (fun s => forallb (fun k => (0 <=? nthZ (nth s mp []) k) && (nthZ (nth s mp []) k <? Z.of_nat P))
+                               (seq 0 (nth s sz 0%nat))) (seq 0 (total_sub subs)).
+
 (* ================= correspondence cases (values are exact rationals) ================= *)
 Definition qv := list Q.
 Definition qm := list (list Q).
